@@ -127,7 +127,7 @@ func qdDataset() []*qdRow {
 		{Id: "r01", Name: "ann", Alias: qdS("A"), Age: qdI(1), Score: qdF(1.5), Active: qdB(true), Born: qdT(qdDates[0]), Tags: []string{"x"}, Places: []string{"pl1"}, Meta: map[string]interface{}{"k": "v", "n": int64(3), "flag": true, "addr": map[string]interface{}{"city": "oslo"}}},
 		{Id: "r02", Name: "bob", Alias: nil, Age: qdI(2), Score: qdF(2), Active: qdB(false), Born: qdT(qdDates[1]), Tags: []string{"x", "y"}, Places: []string{"pl0", "pl1", "pl2"}, Meta: map[string]interface{}{"k": "w", "n": int64(10), "addr": map[string]interface{}{"city": "rome", "geo": map[string]interface{}{"zone": "a"}}}},
 		{Id: "r03", Name: "an", Alias: qdS("ab"), Age: nil, Score: nil, Active: nil, Born: nil, Tags: nil},
-		{Id: "r04", Name: "Ann", Alias: qdS(""), Age: qdI(10), Score: qdF(-3.25), Active: qdB(true), Born: qdT(qdDates[2]), Tags: []string{"xy", "a", "b"}, Places: []string{"pl3"}, Meta: map[string]interface{}{"flag": false}},
+		{Id: "r04", Name: "Ann", Alias: qdS(""), Age: qdI(10), Score: qdF(-3.25), Active: qdB(true), Born: qdT(qdDates[2]), Tags: []string{"xy", "a", "b"}, Places: []string{"pl3"}, Meta: map[string]interface{}{"flag": false, "f": float64(2.5)}},
 		{Id: "r05", Name: "b", Alias: qdS("bob"), Age: qdI(-1), Score: qdF(10), Active: nil, Born: qdT(qdDates[1]), Tags: []string{"y"}, Places: []string{"pl0", "pl2", "pl3"}, Meta: map[string]interface{}{"k": "", "n": int64(-1), "addr": map[string]interface{}{"city": "", "geo": map[string]interface{}{"zone": "b"}}}},
 		{Id: "r06", Name: "cy", Alias: qdS("x y"), Age: qdI(2), Score: nil, Active: qdB(false), Born: nil, Tags: []string{"x", "xy", "y"}},
 		{Id: "r07", Name: "", Alias: nil, Age: qdI(21), Score: qdF(2.5), Active: qdB(true), Born: qdT(qdDates[0]), Tags: []string{"ab"}},
@@ -446,6 +446,18 @@ func qdAtoms(rng *rand.Rand) qdAtom {
 			return false
 		}}
 	case 20: // map field entries (any-typed): string, integer and boolean values compared with a literal of their kind
+		if rng.Intn(4) == 0 {
+			// a float held by a map entry meets literals written with and without a fraction
+			op := cmpOps[rng.Intn(6)]
+			litText, lit := []string{"2", "3", "2.5", "2.0"}[rng.Intn(4)], 0.0
+			fmt.Sscan(litText, &lit)
+			return qdAtom{fmt.Sprintf("meta.f %s %s", op, litText), func(r *qdRow) bool {
+				if f, ok := r.Meta["f"].(float64); ok {
+					return qdNumOp(&f, op, lit)
+				}
+				return qdNumOp(nil, op, lit)
+			}}
+		}
 		if rng.Intn(4) == 0 {
 			// entries of nested maps: every further dot goes one map deeper
 			path, key := "meta.addr.city", []string{"addr", "city"}
